@@ -57,23 +57,25 @@ Proof.
 Qed.
 
 (** A connection is handed to endpoint [ep] exactly when its name passes the
-    rejection test, the lookup answers with a plain destination, and [ep] is
-    what the registry holds under the destination's name at that moment. *)
+    rejection test, the lookup answers with a plain destination and no error,
+    and [ep] is what the registry holds under the destination's name at that
+    moment. *)
 Lemma deliver_only_selected sufs cfg sni ep n :
   decide is_ip sufs cfg sni = REndpoint ep n <->
   is_rejected is_ip sufs sni = false /\ has_lookup cfg = true /\
-  exists d, lookup cfg sni = Some d /\ d_home d = false /\ d_forward d = [] /\
+  exists d, lookup cfg sni = mkLk (Some d) false /\ d_home d = false /\ d_forward d = [] /\
             d_name d = n /\ registry cfg n = Some ep.
 Proof.
-  unfold decide. split.
+  unfold decide, decide_dial. split.
   - destruct (is_rejected is_ip sufs sni); [discriminate|].
     destruct (has_lookup cfg); [|discriminate]. cbn [negb].
-    destruct (lookup cfg sni) as [d|]; [|discriminate].
+    destruct (lookup cfg sni) as [[d|] [|]]; cbn [lk_err lk_dest]; try discriminate.
     destruct (d_home d) eqn:Eh; [destruct (has_dial_home cfg); discriminate|].
     destruct (d_forward d) eqn:Ef; [|discriminate]. cbn [nonemptyb].
     destruct (registry cfg (d_name d)) as [e|] eqn:Er; [|discriminate].
     intros [= <- <-]. repeat split. exists d. auto.
-  - intros (-> & -> & d & -> & -> & -> & <- & ->). reflexivity.
+  - intros (-> & -> & d & Hl & Hh & Hf & <- & Hr). rewrite Hl. cbn [negb lk_err lk_dest].
+    rewrite Hh, Hf. cbn [nonemptyb]. rewrite Hr. reflexivity.
 Qed.
 
 (** At most one endpoint is dialled, and only in the case above. *)
@@ -88,19 +90,204 @@ Proof.
   eexists. reflexivity.
 Qed.
 
-(** Names the lookup refuses, names whose endpoint is not connected, and a
-    server without lookup: nothing is dialled. *)
+(** Names the lookup refuses (an error, with or without a destination next
+    to it), names for which it has neither, names whose endpoint is not
+    connected, and a server without lookup: nothing is dialled - no endpoint,
+    no home, no forward. *)
 Lemma refused_names sufs cfg sni :
-  (has_lookup cfg = false \/ lookup cfg sni = None \/
-   exists d, lookup cfg sni = Some d /\ d_home d = false /\ d_forward d = [] /\
+  (has_lookup cfg = false \/ lk_err (lookup cfg sni) = true \/ lk_dest (lookup cfg sni) = None \/
+   exists d, lk_dest (lookup cfg sni) = Some d /\ d_home d = false /\ d_forward d = [] /\
              registry cfg (d_name d) = None) ->
-  endpoint_dials (decide is_ip sufs cfg sni) = [].
+  endpoint_dials (decide is_ip sufs cfg sni) = [] /\
+  served (decide is_ip sufs cfg sni) = false /\
+  refusal (decide is_ip sufs cfg sni) = true.
 Proof.
-  unfold decide. intros H.
-  destruct (is_rejected is_ip sufs sni); [reflexivity|].
-  destruct H as [->|[H|(d & Hl & Hh & Hf & Hr)]]; [reflexivity| |].
-  - destruct (has_lookup cfg); [|reflexivity]. cbn [negb]. now rewrite H.
-  - destruct (has_lookup cfg); [|reflexivity]. cbn [negb]. now rewrite Hl, Hh, Hf, Hr.
+  unfold decide, decide_dial. intros H.
+  destruct (is_rejected is_ip sufs sni); [repeat split|].
+  destruct (has_lookup cfg); [|repeat split]. cbn [negb].
+  destruct H as [H|[H|[H|(d & Hl & Hh & Hf & Hr)]]]; [discriminate| | |].
+  - rewrite H. repeat split.
+  - destruct (lk_err (lookup cfg sni)); [repeat split|]. rewrite H. repeat split.
+  - destruct (lk_err (lookup cfg sni)); [repeat split|]. rewrite Hl, Hh, Hf, Hr. repeat split.
+Qed.
+
+(** Every route of the closed form is a refusal or serves the connection;
+    it never crashes - for all four shapes of the lookup result. *)
+Lemma decide_total sufs cfg sni :
+  crashes (decide is_ip sufs cfg sni) = false /\
+  refusal (decide is_ip sufs cfg sni) = negb (served (decide is_ip sufs cfg sni)).
+Proof.
+  unfold decide, decide_dial.
+  destruct (is_rejected is_ip sufs sni); [split; reflexivity|].
+  destruct (has_lookup cfg); [|split; reflexivity]. cbn [negb].
+  destruct (lk_err (lookup cfg sni)); [split; reflexivity|].
+  destruct (lk_dest (lookup cfg sni)) as [d|]; [|split; reflexivity].
+  destruct (d_home d); [destruct (has_dial_home cfg); split; reflexivity|].
+  destruct (nonemptyb (d_forward d)); [split; reflexivity|].
+  destruct (registry cfg (d_name d)); split; reflexivity.
+Qed.
+
+(** A served connection: the lookup gave a destination and no error. *)
+Lemma served_only_without_error sufs cfg sni :
+  served (decide is_ip sufs cfg sni) = true ->
+  is_rejected is_ip sufs sni = false /\ has_lookup cfg = true /\
+  lk_err (lookup cfg sni) = false /\ exists d, lk_dest (lookup cfg sni) = Some d.
+Proof.
+  unfold decide, decide_dial.
+  destruct (is_rejected is_ip sufs sni); [discriminate|].
+  destruct (has_lookup cfg); [|discriminate]. cbn [negb].
+  destruct (lk_err (lookup cfg sni)); [discriminate|].
+  destruct (lk_dest (lookup cfg sni)) as [d|]; [|discriminate].
+  intros _. repeat split. now exists d.
+Qed.
+
+(** ** The emitted statements *)
+
+(** The deployed statement list computes the closed form. *)
+Lemma run_dial_deployed cfg sni :
+  run_dial cfg sni deployed_dial_steps st0 = decide_dial cfg sni.
+Proof.
+  unfold deployed_dial_steps, decide_dial. cbn [run_dial].
+  destruct (has_lookup cfg); [|reflexivity]. cbn [negb st_looked st_dest st_err st_ep st0].
+  destruct (lookup cfg sni) as [[d|] [|]]; cbn [lk_dest lk_err is_some negb eval_cond run_body route_of_exit];
+    try reflexivity.
+  destruct (d_home d); [reflexivity|]. destruct (nonemptyb (d_forward d)); [reflexivity|].
+  cbn [st_looked st_dest st_err st_ep negb].
+  destruct (registry cfg (d_name d)); cbn [is_some negb eval_cond run_body route_of_exit st_dest]; reflexivity.
+Qed.
+
+Lemma run_host_deployed cfg sni :
+  run_host is_ip deployed_rj_steps deployed_dial_steps cfg sni = decide is_ip deployed_suffixes cfg sni.
+Proof.
+  unfold run_host, decide. rewrite run_rj_deployed.
+  destruct (is_rejected is_ip deployed_suffixes sni); [reflexivity|apply run_dial_deployed].
+Qed.
+
+(** ** hostConn: every return before the join *)
+
+Lemma decide_dial_total cfg sni : crashes (decide_dial cfg sni) = false.
+Proof.
+  unfold decide_dial. destruct (has_lookup cfg); [|reflexivity]. cbn [negb].
+  destruct (lk_err (lookup cfg sni)); [reflexivity|].
+  destruct (lk_dest (lookup cfg sni)) as [d|]; [|reflexivity].
+  destruct (d_home d); [destruct (has_dial_home cfg); reflexivity|].
+  destruct (nonemptyb (d_forward d)); [reflexivity|].
+  destruct (registry cfg (d_name d)); reflexivity.
+Qed.
+
+(** The closed form of the deployed hostConn: the front connection is always
+    closed on return; the dialer is called only for a sniffed name that is
+    not rejected; the connection is joined - bytes flow - only if the route
+    selects a destination and the dial succeeds; a dialled connection is
+    closed again. *)
+Definition front_spec (sufs : list string) (cfg : server_cfg) (sniff : option bytes) (dial_ok : bool)
+  : front_out :=
+  match sniff with
+  | None => mkOut true None false false
+  | Some name =>
+      if is_rejected is_ip sufs name then mkOut true None false false
+      else let rt := decide_dial cfg name in
+           mkOut true (Some rt) (served rt && dial_ok) (served rt && dial_ok)
+  end.
+
+Lemma run_front_deployed cfg sniff dial_ok :
+  run_front is_ip deployed_rj_steps deployed_dial_steps cfg sniff dial_ok deployed_host_steps hs0
+  = FOut (front_spec deployed_suffixes cfg sniff dial_ok).
+Proof.
+  unfold deployed_host_steps, front_spec. cbn [run_front hs0 hs_sniffed hs_err hs_defer_front hs_dial
+    hs_remote hs_closer hs_defer_remote].
+  destruct sniff as [name|]; cbn [is_some negb]; [|reflexivity].
+  rewrite run_rj_deployed. destruct (is_rejected is_ip deployed_suffixes name); [reflexivity|].
+  rewrite run_dial_deployed, decide_dial_total.
+  cbn [run_front hs_sniffed hs_err hs_defer_front hs_dial hs_remote hs_closer hs_defer_remote].
+  destruct (served (decide_dial cfg name) && dial_ok) eqn:E; cbn [negb]; unfold ret_out;
+    cbn [hs_defer_front hs_dial hs_remote hs_defer_remote orb andb]; reflexivity.
+Qed.
+
+Lemma front_spec_props sufs cfg sniff dial_ok :
+  let o := front_spec sufs cfg sniff dial_ok in
+  fo_front_closed o = true /\
+  (fo_joined o = true <->
+     exists name, sniff = Some name /\ served (decide is_ip sufs cfg name) = true /\ dial_ok = true) /\
+  ((sniff = None \/ exists name, sniff = Some name /\ is_rejected is_ip sufs name = true) ->
+     fo_dial o = None /\ fo_joined o = false) /\
+  fo_remote_closed o = fo_joined o.
+Proof.
+  unfold front_spec, decide. destruct sniff as [name|].
+  - destruct (is_rejected is_ip sufs name) eqn:R; cbn [fo_front_closed fo_joined fo_dial fo_remote_closed].
+    + repeat split; try discriminate.
+      intros (n & [= <-] & H & _). rewrite R in H. discriminate.
+    + split; [reflexivity|]. split; [|split; [|reflexivity]].
+      * split.
+        -- intros H. apply andb_true_iff in H. destruct H as [H1 H2]. exists name. rewrite R. auto.
+        -- intros (n & [= <-] & H & ->). rewrite R in H. rewrite H. reflexivity.
+      * intros [H|(n & [= <-] & H)]; [discriminate|]. rewrite R in H. discriminate.
+  - cbn [fo_front_closed fo_joined fo_dial fo_remote_closed]. repeat split; try discriminate.
+    intros (n & H & _). discriminate.
+Qed.
+
+(** Generic over emitted lists: if the lookup is followed by a guard that
+    fires whenever err != nil and whose body returns a non-nil error, then a
+    name for which the lookup returns an error - with or without a *Dest - is
+    refused: the route is an error return, nothing is served, nothing crashes. *)
+Lemma route_of_exit_refusal st x : refusal (route_of_exit st (Some x)) = true.
+Proof. destruct x; reflexivity. Qed.
+
+Lemma lookup_error_always_refuses steps cfg sni :
+  lookup_err_guarded steps = true ->
+  has_lookup cfg = true ->
+  lk_err (lookup cfg sni) = true ->
+  refusal (run_dial cfg sni steps st0) = true /\
+  served (run_dial cfg sni steps st0) = false /\
+  endpoint_dials (run_dial cfg sni steps st0) = [].
+Proof.
+  intros G HL HE.
+  assert (R : refusal (run_dial cfg sni steps st0) = true).
+  { induction steps as [|s r IH]; [discriminate|].
+    destruct s; cbn [lookup_err_guarded] in G; try discriminate.
+    - cbn [run_dial]. rewrite HL. cbn [negb]. auto.
+    - cbn [run_dial]. auto.
+    - destruct r as [|[| | |c b| | | |] r']; try discriminate.
+      apply andb_true_iff in G. destruct G as [Gc Gb].
+      cbn [run_dial]. rewrite HL, HE. cbn [st_looked st_dest st_err st_ep negb is_some].
+      unfold cond_when_err in Gc. unfold refusing_body in Gb. cbn [forallb] in Gc, Gb.
+      apply andb_true_iff in Gc. destruct Gc as [Gc1 Gc2]. apply andb_true_iff in Gc2. destruct Gc2 as [Gc2 _].
+      apply andb_true_iff in Gb. destruct Gb as [Gb1 Gb2]. apply andb_true_iff in Gb2. destruct Gb2 as [Gb2 _].
+      destruct (lk_dest (lookup cfg sni)) as [d|]; cbn [is_some negb].
+      + destruct (eval_cond false false c) as [[|]|]; try discriminate.
+        destruct (run_body false (Some FromLookup) b) as [|[x|]|]; try discriminate.
+        apply route_of_exit_refusal.
+      + destruct (eval_cond true false c) as [[|]|]; try discriminate.
+        destruct (run_body true (Some FromLookup) b) as [|[x|]|]; try discriminate.
+        apply route_of_exit_refusal. }
+  split; [exact R|].
+  destruct (run_dial cfg sni steps st0); try discriminate; repeat split.
+Qed.
+
+(** The predicate is not vacuous and not trivial: it holds for the deployed
+    list, and fails for a list that tests the destination instead of the
+    error (a lookup returning a destination together with an error would be
+    served). *)
+Lemma deployed_lookup_err_guarded : lookup_err_guarded deployed_dial_steps = true.
+Proof. reflexivity. Qed.
+
+Definition dest_tested_steps : list dial_step :=
+  [ DNoLookup; DDomain; DLookup;
+    DGuard CDestNil (BIf CErrNil (BSetErrNotFound BEnd) (BRet XErr));
+    DHomeForward; DEndpoint; DGuard CErrNonNil (BRet XAnnotErr); DDial ].
+
+Lemma dest_tested_not_guarded : lookup_err_guarded dest_tested_steps = false.
+Proof. reflexivity. Qed.
+
+Lemma dest_tested_serves_refused_name cfg sni d ep :
+  has_lookup cfg = true -> lookup cfg sni = mkLk (Some d) true ->
+  d_home d = false -> d_forward d = [] -> registry cfg (d_name d) = Some ep ->
+  run_dial cfg sni dest_tested_steps st0 = REndpoint ep (d_name d).
+Proof.
+  intros HL Hlk Hh Hf Hr. unfold dest_tested_steps. cbn [run_dial]. rewrite HL, Hlk.
+  cbn [negb lk_dest lk_err st_looked st_dest st_err st_ep is_some eval_cond].
+  rewrite Hh, Hf. cbn [nonemptyb st_looked st_dest st_err st_ep negb]. rewrite Hr.
+  reflexivity.
 Qed.
 
 End Route.
